@@ -72,3 +72,83 @@ fn c02_o3b_validate_immutable_len10() {
 fn c02_o3c_validate_immutable_len0() {
     scenario::<0>();
 }
+
+// ---- C02.O3d: what hash_immutable feeds into SHA-1, at the length boundaries ----
+static mut SHA_IN: crate::verif_env::Ghost<[u8; 1100]> = crate::verif_env::ghost(70, [0; 1100]);
+static mut SHA_LEN: crate::verif_env::Ghost<usize> = crate::verif_env::ghost(71, 0);
+static mut SHA_DIGESTS: crate::verif_env::Ghost<usize> = crate::verif_env::ghost(72, 0);
+/// `Sha1::update` as a probe: appends its input to a ghost buffer (memcpy, no loop)
+fn sha_update_probe(_s: &mut Sha1, data: &[u8]) {
+    unsafe {
+        let n = data.len();
+        if SHA_LEN.v + n <= 1100 {
+            SHA_IN.v[SHA_LEN.v..SHA_LEN.v + n].copy_from_slice(data);
+            SHA_LEN.v += n;
+        } else {
+            crate::verif_env::cut();
+        }
+    }
+}
+/// `Sha1::digest` as an uninterpreted value (the hash function itself is C02.O3a-c's subject)
+fn sha_digest_probe(_s: &Sha1) -> sha1_smol::Digest {
+    unsafe {
+        SHA_DIGESTS.v += 1;
+        std::mem::transmute::<[u32; 5], sha1_smol::Digest>([7u32; 5])
+    }
+}
+
+fn fed_exactly(n: usize, v: &[u8; 1000], pre: &[u8]) {
+    unsafe {
+        SHA_LEN.v = 0;
+    }
+    let h = hash_immutable(&v[..n]);
+    let (len, buf) = unsafe { (SHA_LEN.v, &SHA_IN.v) };
+    assert!(len == pre.len() + n, "C02.O3d hash input is the decimal length, ':' and the value, nothing else");
+    let mut i = 0;
+    while i < 5 {
+        if i < pre.len() {
+            assert!(buf[i] == pre[i], "C02.O3d hash input starts with the bencode length prefix");
+        }
+        i += 1;
+    }
+    if n > 0 {
+        assert!(buf[pre.len()] == v[0] && buf[pre.len() + n - 1] == v[n - 1], "C02.O3d hash input ends with the value bytes");
+    }
+    assert!(h[0] == 0 && h[3] == 7, "C02.O3d the digest of that input is what is returned");
+}
+
+//@ ob: C02.O3d
+//@ tier: thorough
+//@ cap: 1800
+//@ also: C03
+//@ desc: hash_immutable feeds exactly the BEP44 encoding into SHA-1 at every length-prefix boundary: for values of 0, 1, 9, 10, 99, 100, 999 and 1000 bytes the bytes given to the hasher are the decimal length, ':' and the value (first and last value byte checked), nothing is truncated or added, and the returned id is that hasher's digest; so a 1000-byte value is stored under SHA1("1000:" v)
+//@ bounds: the eight stated lengths (concrete), value bytes symbolic (two symbolic bytes: first and last position); SHA-1 itself abstracted (Sha1::update records, Sha1::digest uninterpreted: bound by C02.O3a-c); unwind 8
+//@ stubs: sha1_smol::Sha1::update -> probe recording the input; sha1_smol::Sha1::digest -> fixed digest
+//@ functions: hash_immutable (length prefix formatting, buffer assembly)
+#[kani::proof]
+#[kani::stub(sha1_smol::Sha1::update, sha_update_probe)]
+#[kani::stub(sha1_smol::Sha1::digest, sha_digest_probe)]
+#[kani::unwind(8)]
+fn c02_o3d_hash_input_boundaries() {
+    let mut v = [0x61u8; 1000];
+    let first: u8 = kani::any();
+    let last: u8 = kani::any();
+    v[0] = first;
+    v[8] = last;
+    v[9] = last;
+    v[98] = last;
+    v[99] = last;
+    v[998] = last;
+    v[999] = last;
+    fed_exactly(0, &v, b"0:");
+    fed_exactly(1, &v, b"1:");
+    fed_exactly(9, &v, b"9:");
+    fed_exactly(10, &v, b"10:");
+    fed_exactly(99, &v, b"99:");
+    fed_exactly(100, &v, b"100:");
+    fed_exactly(999, &v, b"999:");
+    fed_exactly(1000, &v, b"1000:");
+    assert!(unsafe { SHA_DIGESTS.v } == 8, "C02.O3d one digest per hash");
+    assert!(!crate::verif_env::cut_reached(), "CUT: hasher fed more than 1100 bytes");
+    kani::cover!(first != last);
+}
